@@ -235,6 +235,9 @@ C11_SpellingIrrelevant ==
 \* frame conditions: the in-memory map is an argument of write and of the conversions, never a result - only read and
 \* invert_contrast hand out a new one; and what they handed out stays what it was until the next of them
 C11_ArgumentsKept == [][op'.name \in {"write", "em2mrc", "mrc2em"} => mem' = mem]_vars
+\* in particular an array that read handed out does not follow its file: rewriting, converting onto or deleting the
+\* file it came from (any step that is not itself a read / invert_contrast) leaves it what it was
+C11_ResultsPersist == [][op'.name \notin {"read", "invert", "init"} => mem' = mem]_vars
 
 \* what is written is what is read back with the same transposition flag: same shape, same (narrowed) voxels
 C11_RoundTrip ==
